@@ -1097,3 +1097,56 @@ def search_c01(rng, n, S=None, kinds=None):
         except Exception as ex:
             S.check(False, f"C01:shared-bc-closed:{kind}:exception", repr(ex), {"kind": kind}, repr(ex), "no exception")
     return S
+
+
+# ---------------------------------------------------------------- refused / failed solve, then the corrected call
+def refused_then_retry(S, pid, rng, n=9):
+    """A solvePDE call that does not complete (unknown term after valid ones -> documented TypeError; external solver
+    that raises) followed by the corrected call on the SAME variable must give what the same call gives on a fresh
+    variable: the numbers solvePDE produces are determined by the term list and the BCs, not by earlier failed calls.
+    (Seeded changes C02-m11, C04-m11, C07-m12, C12-m12, C15-m11: accumulation into the cached boundary system.)"""
+    from common import KINDS, rand_mesh, rand_vals, rand_bc_spec, make_bcs, bc_describe
+    for t in range(n):
+        mc = rand_mesh(rng, KINDS[t % len(KINDS)], nmax=3)
+        spec = rand_bc_spec(rng, mc, allow_periodic=False, kinds=("dirichlet", "robin", "default"))
+        vals = rand_vals(rng, mc.shape(), "pos")
+        try:
+            phi = pf.CellVariable(mc.m, vals.copy(), make_bcs(mc, spec))
+            twin = pf.CellVariable(mc.m, vals.copy(), make_bcs(mc, spec))
+        except ValueError:
+            continue
+        if not np.all(np.isfinite(np.asarray(phi._value))):
+            continue
+        D = pf.FaceVariable(mc.m, 1.0)
+        src = pf.CellVariable(mc.m, rand_vals(rng, mc.shape(), "pos"))
+        dt = 0.25
+        def terms(v):
+            return [pf.transientTerm(v, dt, 1.0), -pf.diffusionTerm(D), pf.constantSourceTerm(src)]
+        inp = case_of(mc, bc=bc_describe(spec), interior=vals, scenario="refused solvePDE then corrected call")
+        mode = t % 2
+        raised = None
+        try:
+            if mode == 0:
+                pf.solvePDE(phi, terms(phi) + [None])
+            else:
+                def boom(M, RHS):
+                    raise RuntimeError("external solver failed")
+                pf.solvePDE(phi, terms(phi), externalsolver=boom)
+        except Exception as ex:
+            raised = type(ex).__name__
+        S.sig("refused-retry", mc.kind, mode)
+        if raised is None:
+            continue          # acceptance of the unknown term is C16's business
+        try:
+            pf.solvePDE(phi, terms(phi)); pf.solvePDE(twin, terms(twin))
+        except Exception as ex:
+            S.check(False, f"{pid}:retry-after-failed-solve-raises", repr(ex), inp, repr(ex), "no exception")
+            continue
+        a, b = np.asarray(phi.value), np.asarray(twin.value)
+        if not (np.all(np.isfinite(a)) and np.all(np.isfinite(b))):
+            continue
+        ok = bool(np.allclose(a, b, rtol=1e-9, atol=1e-9 * (1 + float(np.max(np.abs(b))))))
+        S.check(ok, f"{pid}:retry-after-failed-solve-differs",
+                "after a solvePDE call that raised (unknown term / failing external solver) the corrected call on the same variable "
+                "differs from the same call on a fresh variable", inp, float(np.max(np.abs(a - b))), 0.0)
+    return S
